@@ -31,6 +31,21 @@ VALUES = [-1, -2, 0, 0.0, False, 1, True, 1.0, 2, "a", "", "-1", ("t", 1), ("t",
           '{"a": 1}', '{"a": 1, "b": 2}', '{}', "a=1", "(1,)", "{'a': 1}",
           # different strings that render alike: composed vs decomposed, full-width digit, non-breaking space
           "Z\u00fcrich", "Zu\u0308rich", "\uff11", "a\u00a0b", "a b"]
+
+
+class ClassRef:
+    """Stands for one of the history's own classes used as an ARGUMENT (a per-class record: `Info(Node)`)."""
+
+    def __init__(self, name):
+        self.name = name
+
+    def __repr__(self):
+        return f"<class {self.name}>"
+
+
+I_CLS_A, I_CLS_B, I_CLS_S = len(VALUES), len(VALUES) + 1, len(VALUES) + 2
+VALUES += [ClassRef("KeyedA"), ClassRef("KeyedB"), ClassRef("SharedA")]
+CURRENT_CLASSES = {}
 I_J_A1, I_J_A1B2, I_J_EMPTY = 29, 30, 31
 I_ONE, I_TWO, I_T12, I_EMPTY, I_TM, I_TT12 = 5, 8, 25, 26, 27, 28
 KWSETS = [{}, {"a": 1}, {"a": 1, "b": 2}, {"b": 2, "a": 1}, {"a": [1, 2]}, {"a": {"k": 1}}, {"a": -1}, {"a": -2},
@@ -89,6 +104,14 @@ def make_classes():
     class Custom(Base, metaclass=singleton.semi_singleton_metaclass(hashfunc=_first_arg)):
         pass
 
+    M_keyed = singleton.semi_singleton_metaclass(hashfunc=_first_arg)
+
+    class KeyedA(Base, metaclass=M_keyed):
+        """Shares ONE custom-key metaclass (the key is the bare first argument) with KeyedB."""
+
+    class KeyedB(Base, metaclass=M_keyed):
+        pass
+
     class OrderKey(Base, metaclass=singleton.semi_singleton_metaclass(hashfunc=_call_order)):
         pass
 
@@ -145,17 +168,18 @@ def make_classes():
             INIT_LOG.append((type(self).__name__, id(self), args, dict(kwargs)))
             super().__init__()
 
-    classes = {c.__name__: c for c in (Own1, Own2, SharedA, SharedB, Parent, Child, Custom, SVertex, EmptyBag, Normalizer, Picky, OrderKey, Factory, Shadowy)}
+    classes = {c.__name__: c for c in (Own1, Own2, SharedA, SharedB, Parent, Child, Custom, SVertex, EmptyBag, Normalizer, Picky, OrderKey, Factory, Shadowy, KeyedA, KeyedB)}
     return classes
 
 
-CLASS_NAMES = ["Own1", "Own2", "SharedA", "SharedB", "Parent", "Child", "Custom", "SVertex", "EmptyBag", "Normalizer", "Picky", "OrderKey", "Factory", "Shadowy"]
+CLASS_NAMES = ["Own1", "Own2", "SharedA", "SharedB", "Parent", "Child", "Custom", "SVertex", "EmptyBag", "Normalizer", "Picky", "OrderKey", "Factory", "Shadowy", "KeyedA", "KeyedB"]
 ARRANGEMENT = {"Own1": "own", "Own2": "own", "SharedA": "shared_metaclass", "SharedB": "shared_metaclass",
-               "Parent": "subclassing", "Child": "subclassing", "Custom": "custom_hashfunc", "SVertex": "vertex_subclass", "EmptyBag": "falsy_instances", "Normalizer": "init_mutates_arguments", "Picky": "init_may_raise", "OrderKey": "keyword_order_sensitive_hashfunc", "Factory": "new_returns_subclass_instance", "Shadowy": "class_attributes_named_like_a_registry"}
+               "Parent": "subclassing", "Child": "subclassing", "Custom": "custom_hashfunc", "SVertex": "vertex_subclass", "EmptyBag": "falsy_instances", "Normalizer": "init_mutates_arguments", "Picky": "init_may_raise", "OrderKey": "keyword_order_sensitive_hashfunc", "Factory": "new_returns_subclass_instance", "Shadowy": "class_attributes_named_like_a_registry",
+               "KeyedA": "shared_metaclass_with_bare_argument_keys", "KeyedB": "shared_metaclass_with_bare_argument_keys"}
 
 
 def model_key(cname, args, kwargs):
-    if cname == "Custom":
+    if cname in ("Custom", "KeyedA", "KeyedB"):
         return ("custom", _first_arg(args, kwargs))
     if cname == "OrderKey":
         return ("order",) + _call_order(args, kwargs)
@@ -166,6 +190,8 @@ def _fresh(v):
     """An object equal to v but (where the type allows) not the same object: keys must compare by ==, not `is`."""
     if isinstance(v, bool) or v is None:
         return v
+    if isinstance(v, ClassRef):
+        return CURRENT_CLASSES[v.name]
     if isinstance(v, int):
         return int(str(v))
     if isinstance(v, float):
@@ -188,6 +214,8 @@ def _args(op):
 def run_history(ctx, ops, record=True):
     """Execute ops against the real code and the model.  Returns list of (mechanism, what)."""
     classes = make_classes()
+    CURRENT_CLASSES.clear()
+    CURRENT_CLASSES.update(classes)
     model = {c: {} for c in classes}  # cname -> {key -> inst}
     created = []  # every instance ever made, in order
     found = []
@@ -358,6 +386,10 @@ def gen_history(rng, nops):
         vals += [I_ONE, I_TWO, I_T12, I_EMPTY]
     if rng.random() < 0.25:
         vals += [I_ONE, I_J_A1, I_J_A1B2, I_J_EMPTY]
+    if rng.random() < 0.3:
+        # class objects as arguments, among classes whose key is the bare argument
+        names += ["KeyedA", "KeyedB"]
+        vals += [I_CLS_A, I_CLS_B, I_CLS_S]
     kws = rng.sample(range(len(KWSETS)), rng.randint(1, 3))
     if rng.random() < 0.7:
         kws.append(0)
@@ -375,8 +407,10 @@ def prelude():
     """Seed-independent scripts that make every arrangement x situation appear."""
     out = []
     for a, b in (("Own1", "Own2"), ("SharedA", "SharedB"), ("Parent", "Child"), ("Child", "Parent"), ("Custom", "Own1"),
-                 ("SVertex", "Own1"), ("SharedB", "SharedA"), ("EmptyBag", "Own1"), ("Own2", "EmptyBag"), ("Normalizer", "Own1"), ("Picky", "Own2"), ("OrderKey", "Own1"), ("Own2", "OrderKey"), ("Factory", "Own1"), ("Parent", "Factory"), ("Shadowy", "Own1"), ("Own2", "Shadowy")):
-        for v1, v2 in ((0, 1), (2, 3), (5, 6), (12, 13), (19, 20), (9, 9)):
+                 ("SVertex", "Own1"), ("SharedB", "SharedA"), ("EmptyBag", "Own1"), ("Own2", "EmptyBag"), ("Normalizer", "Own1"), ("Picky", "Own2"), ("OrderKey", "Own1"), ("Own2", "OrderKey"), ("Factory", "Own1"), ("Parent", "Factory"), ("Shadowy", "Own1"), ("Own2", "Shadowy"),
+                 ("KeyedA", "KeyedB"), ("KeyedB", "KeyedA")):
+        for v1, v2 in ((0, 1), (2, 3), (5, 6), (12, 13), (19, 20), (9, 9)) + (
+                ((I_CLS_A, I_CLS_B), (I_CLS_B, I_CLS_A), (I_CLS_S, I_CLS_A)) if a.startswith(("Keyed", "Shared")) else ()):
             out.append([
                 {"op": "new", "c": a, "a": [v1], "k": 0, "i": 0},
                 {"op": "new", "c": b, "a": [v1], "k": 0, "i": 0},
@@ -440,6 +474,21 @@ def prelude():
             {"op": "check", "c": a, "a": [I_ONE, I_TWO], "k": 0, "i": 0},
             {"op": "new", "c": a, "a": [I_EMPTY], "k": 1, "i": 0},
             {"op": "new", "c": a, "a": [], "k": 1, "i": 0},
+        ])
+    # a mapping of one class KEYED BY another class object survives that other class being cleared (and vice versa)
+    for a, b, ca, cb in (("KeyedA", "KeyedB", I_CLS_A, I_CLS_B), ("KeyedB", "KeyedA", I_CLS_B, I_CLS_A),
+                         ("SharedA", "SharedB", I_CLS_S, I_CLS_S), ("KeyedA", "Custom", I_CLS_A, I_CLS_A)):
+        out.append([
+            {"op": "new", "c": b, "a": [ca], "k": 0, "i": 0},
+            {"op": "new", "c": a, "a": [cb], "k": 0, "i": 0},
+            {"op": "new", "c": a, "a": [ca], "k": 0, "i": 0},
+            {"op": "clear", "c": a, "a": [], "k": 0, "i": 0},
+            {"op": "check", "c": b, "a": [ca], "k": 0, "i": 0},
+            {"op": "new", "c": b, "a": [ca], "k": 0, "i": 0},
+            {"op": "check", "c": a, "a": [cb], "k": 0, "i": 0},
+            {"op": "new", "c": a, "a": [ca], "k": 0, "i": 0},
+            {"op": "drop", "c": b, "a": [ca], "k": 0, "i": 0},
+            {"op": "check", "c": a, "a": [ca], "k": 0, "i": 0},
         ])
     return out
 
